@@ -8,7 +8,7 @@ EXPLANATION = ("L1 reply senders are owned only by the driver's two routing maps
                "arms leaves the loop, a stream error and a failed socket write return Err; L3 on the caller side every send / recv / await "
                "on a channel is propagated with `?`, matched into an Err return or (finish only) logged - never unwrapped, never retried; "
                "L4 the request send (with `?`) precedes every await in the operation issue point; L5 the Unbind arm shuts the socket down "
-               "and closes the sink before acknowledging, and the acknowledgement is sent for every non-Single operation. Not decided: "
+               "and closes the sink before acknowledging, and the acknowledgement is sent for every non-Single operation; L7 the transport wrapper's AsyncRead / AsyncWrite methods each delegate, per variant, to the same method of the wrapped stream (shutdown reaches the socket of every transport kind). Not decided: "
                "liveness itself (tokio wakes waiters; a stalled write eventually fails; select! fairness).")
 TRUSTED = ['dropping a tokio Sender wakes and fails its receiver', 'tokio select!/scheduler fairness']
 UNDECIDED = ['liveness under the scheduler', 'fault injection at every byte boundary (dynamic notion)']
@@ -228,6 +228,57 @@ def run(ctx):
                 if v and v != 'LdapOp::Single':
                     ctx.add('L5.ack-reached', v, loc(arm['body']), not hirq.diverges(arm['body']) and L.before(mm, a),
                             'the %s arm never reaches the acknowledgement: its caller would wait forever' % v)
+
+    # ---- L7 the transport wrapper hands every AsyncRead / AsyncWrite call to the stream it wraps (Unbind's shutdown and close end there)
+    transport_delegation(ctx, f)
+
+def transport_delegation(ctx, f, rule='L7'):
+    """The transport enum (the type the Framed sink is built over) implements AsyncRead / AsyncWrite by handing each call to the
+    stream it wraps.  Every path of every such method must be the call of the *same* trait method on the payload of one variant,
+    with the method's own remaining parameters in order; each variant must have its path.  (A poll_shutdown that lands in
+    poll_flush never closes that kind of transport; a poll_read that lands in another variant's stream reads nothing.)"""
+    impls = [p for p, it in f.items.items() if it.get('kind') == 'AssocFn' and (it.get('impl_trait_def') or '').startswith('tokio::io::')
+             and (it.get('impl_self') or '').startswith('ldap3::') and p in f.hir]
+    n = 0
+    for p in sorted(impls):
+        it = f.items[p]
+        ty = f.items.get(it['impl_self'])
+        if ty is None or ty.get('kind') != 'Enum':
+            continue
+        B = hirq.Body(f, f.hir[p])
+        ctx.analysed['bodies'].add(p)
+        meth = p.rsplit('::', 1)[-1]
+        trait = it['impl_trait_def']
+        outs, I = sem.paths(f, B, result_combinators=True)
+        params = [v for k, v in sorted(I.param_env().items(), key=lambda kv: [int(x) for x in kv[0].split('.')])]
+        seen = set()
+        for o in outs:
+            n += 1
+            v = o.val
+            ok, why = False, 'the method does not end in a call'
+            if o.kind in ('val', 'ret') and v and v[0] == 'call':
+                callee, args = v[1], v[2]
+                same = callee.endswith(' as %s>::%s' % (trait, meth)) or callee == '%s::%s' % (trait, meth)
+                var = absx.leaves(args[0], lambda x: x[0] == 'variant' and len(x) == 4 and sem.has(x[1], lambda y: y == params[0])) if args else []
+                if not same:
+                    why = 'it calls %s, which is not %s::%s of the wrapped stream' % (callee.rsplit(' as ', 1)[-1].replace('>::', '::') if ' as ' in callee else callee, trait.rsplit('::', 1)[-1], meth)
+                elif not var:
+                    why = 'the receiver is not the stream wrapped by the matched variant'
+                elif tuple(args[1:]) != tuple(params[1:]):
+                    why = 'the remaining arguments are not this method\'s own parameters in order'
+                else:
+                    ok = True
+                    seen.add(var[0][2])
+                    # the variant delegated to is the variant the path matched
+                    pcv = [a[2] for a, t in o.st.pc if t and a[0] == 'is']
+                    if pcv and var[0][2] not in pcv:
+                        ok, why = False, 'the path matched %s but delegates to the stream of %s' % (pcv[-1], var[0][2])
+            ctx.add(rule + '.transport-method-delegates', '%s|%s' % (meth, '&'.join(sorted(a[2] for a, t in o.st.pc if t and a[0] == 'is')) or 'last variant'), loc(B.root), ok,
+                    '%s of the transport wrapper: %s' % (meth, why))
+        variants = set('%s::%s' % (it['impl_self'].rsplit('::', 1)[-1], v['name']) for v in ty['variants'])
+        ctx.add(rule + '.transport-method-covers-variants', meth, loc(B.root), variants <= seen,
+                '%s of the transport wrapper has no delegating path for %s' % (meth, sorted(variants - seen)))
+    ctx.floor(rule, 'delegating paths of the transport wrapper (AsyncRead/AsyncWrite for ConnType)', n, 8)
 
 def consumption(B, n, c):
     """How the result of node n is consumed: 'try', 'match-err-returns', 'logged', 'unwrapped', 'ignored', 'other'."""
